@@ -7,6 +7,7 @@ import (
 	"errors"
 	"fmt"
 	"io"
+	"strings"
 	"testing"
 
 	cose "github.com/veraison/go-cose"
@@ -466,6 +467,20 @@ type c20EntropyCase struct {
 }
 
 func checkC20Entropy(c c20EntropyCase) error {
+	if c.Signer == "stub-panics" {
+		// a key whose backend panics: the panic may reach the caller (it does today); what must not
+		// happen is a signing call that swallows it and reports success
+		err := safely(func() error { return checkC20EntropyInner(c) })
+		if f, ok := err.(*Finding); ok && f.Key == "panic" && strings.Contains(f.Msg, "c20: key backend gone") {
+			stats.Class("entropy/" + refcose.AlgName(c.Key.Alg) + "/stub-panics/panic-reaches-the-caller")
+			return nil
+		}
+		return err
+	}
+	return checkC20EntropyInner(c)
+}
+
+func checkC20EntropyInner(c c20EntropyCase) error {
 	var sg cose.Signer
 	var err error
 	alg := cose.Algorithm(c.Key.Alg)
@@ -501,6 +516,8 @@ func checkC20Entropy(c c20EntropyCase) error {
 		sg, err = cose.NewSigner(alg, &bridge.StubCryptoSigner{Pub: priv.Public(), SignFn: func(r io.Reader, d []byte, o crypto.SignerOpts) ([]byte, error) {
 			ncalls++
 			switch mode {
+			case "stub-panics":
+				panic("c20: key backend gone")
 			case "stub-fails-once":
 				// a transient fault: only the first operation of the key fails
 				if ncalls == 1 {
@@ -674,7 +691,7 @@ func TestC20_Entropy(t *testing.T) {
 					}
 				}
 			}
-			for _, sgn := range []string{"stub-error", "stub-partial", "stub-empty", "stub-fails-once", "opaque-trailing-der", "cose-key-inconsistent-pair"} {
+			for _, sgn := range []string{"stub-error", "stub-partial", "stub-empty", "stub-fails-once", "stub-panics", "opaque-trailing-der", "cose-key-inconsistent-pair"} {
 				if km.Family() != "ec" && (sgn == "opaque-trailing-der" || sgn == "cose-key-inconsistent-pair") {
 					continue
 				}
@@ -759,3 +776,69 @@ func checkC20Rand(c c20RandCase) error {
 }
 
 func init() { register("c20rand", checkC20Rand) }
+
+// ---------------------------------------------------------------------------
+// reserved but unfilled slots: a COSE_Sign whose Signatures slice has a nil
+// entry is not a completely signed message
+
+type c20NilSlotCase struct {
+	N      int  `json:"n"`
+	Nil    int  `json:"nil"`    // index of the nil entry
+	Signed bool `json:"signed"` // the other slots carry signatures
+}
+
+func checkC20NilSlot(c c20NilSlotCase) error {
+	payload := []byte("payload")
+	m := &cose.SignMessage{Headers: cose.Headers{Protected: cose.ProtectedHeader{}, Unprotected: cose.UnprotectedHeader{}}, Payload: payload}
+	m.Signatures = make([]*cose.Signature, c.N)
+	var ss []cose.Signer
+	var vs []cose.Verifier
+	for i := 0; i < c.N; i++ {
+		ss = append(ss, &bridge.SpySigner{Alg: cose.AlgorithmEdDSA})
+		vs = append(vs, &bridge.SpyVerifier{Alg: cose.AlgorithmEdDSA})
+		if i == c.Nil {
+			continue
+		}
+		m.Signatures[i] = &cose.Signature{Headers: c20Headers()}
+		if c.Signed {
+			m.Signatures[i].Signature = []byte{1, 2, 3}
+		}
+	}
+	desc := fmt.Sprintf("%+v", c)
+	if b, err := m.MarshalCBOR(); err == nil || len(b) != 0 {
+		return finding("encodes-unsigned/nil-slot", "%s: a COSE_Sign with a nil signature entry is encoded: %x", desc, b)
+	}
+	if err := m.Verify(nil, vs...); err == nil {
+		return finding("verifies-unsigned/nil-slot", "%s: a COSE_Sign with a nil signature entry verifies", desc)
+	}
+	if !c.Signed {
+		err := m.Sign(refcose.NewEntropy(nil), nil, ss...)
+		if err == nil {
+			return finding("signer-error-lost/nil-slot", "%s: Sign reports success although one slot cannot be signed", desc)
+		}
+		if b, err := m.MarshalCBOR(); err == nil || len(b) != 0 {
+			return finding("encodes-half-signed/nil-slot", "%s: after the failed Sign the message is encodable: %x", desc, b)
+		}
+	}
+	stats.Class("nil-slot")
+	return nil
+}
+
+func init() { register("c20nil", checkC20NilSlot) }
+
+func TestC20_NilSlots(t *testing.T) {
+	begin(t, "C20", "nilslots")
+	n := 0
+	for k := 1; k <= 4; k++ {
+		for p := 0; p < k; p++ {
+			for _, signed := range []bool{false, true} {
+				c := c20NilSlotCase{N: k, Nil: p, Signed: signed}
+				n++
+				stats.Eval()
+				stats.NTBytes([]byte(fmt.Sprint(c)))
+				judge(t, "c20nil", c, checkC20NilSlot)
+			}
+		}
+	}
+	stats.ExhaustivePart("nil signature entries (n x position x signed)", n)
+}
